@@ -624,6 +624,7 @@ func c1classify(p c1prog, base, res c1res, diffs []c1diff, texts ...string) (str
 	hasRef := strings.Contains(p.src, ".") || strings.Contains(p.src, "[")
 	bothErr := base.info.nErr > 0 && res.info.nErr > 0
 	embRef := c1hasEmbeddedRef(p.src)
+	embRefSyn := embRef
 	sibFirst := !embRef && c1hasSiblingRefConj(p.src)
 	if !embRef && !sibFirst && (strings.Contains(p.src, "#") || strings.Contains(p.src, "close(")) {
 		// the sole-embedding wrap `{…}` → `{{…}}` of the rearrangement itself puts a literal
@@ -643,7 +644,7 @@ func c1classify(p c1prog, base, res c1res, diffs []c1diff, texts ...string) (str
 	sibRef := c1hasSiblingRefConj(p.src)
 	aliasConj := !embRef && !sibFirst && c1hasAliasAllRefConj(p.src)
 	nestedMark := c1hasNestedMark(p.src)
-	patRef := !embRef && c1hasPatternRef(p.src) && strings.Contains(p.src, "|")
+	patRef := !embRefSyn && c1hasPatternRef(p.src) && strings.Contains(p.src, "|")
 	// paths at which one side reports an error: a differing ancestor of such a path is derived
 	var errPaths []string
 	for _, d := range diffs {
@@ -705,6 +706,11 @@ func c1classify(p c1prog, base, res c1res, diffs []c1diff, texts ...string) (str
 			found["closedness-of-embedded-reference-depends-on-arrangement"] = true
 		case d.kind == "value" && embRef && (strings.HasPrefix(sa, "|(") || strings.HasPrefix(sb, "|(")):
 			// a disjunct that closedness should eliminate survives in one arrangement
+			found["closedness-of-embedded-reference-depends-on-arrangement"] = true
+		case d.kind == "value" && embRef && strings.HasPrefix(sa, "{") && strings.HasPrefix(sb, "{") &&
+			!strings.Contains(sa, "·") && !strings.Contains(sb, "·"):
+			// both sides are disjunctions reduced to ONE disjunct (rendered as a whole): a
+			// different disjunct survives the closedness check
 			found["closedness-of-embedded-reference-depends-on-arrangement"] = true
 		case d.kind == "value" && embRef && strings.Contains(sa, "·") != strings.Contains(sb, "·"):
 			// one side is a disjunction reduced to a single disjunct (rendered as a whole),
@@ -1098,22 +1104,33 @@ func c1hasNestedMark(src string) bool {
 	return found
 }
 
-// c1hasPatternRef: a pattern constraint whose value is (a conjunction with) a reference.
+// c1hasPatternRef: a pattern constraint whose value IS a reference (possibly an operand of &).
 func c1hasPatternRef(src string) bool {
 	f, err := c1parse(src)
 	if err != nil {
 		return false
 	}
 	found := false
+	var operand func(e ast.Expr)
+	operand = func(e ast.Expr) {
+		switch x := c1unparen(e).(type) {
+		case *ast.Ident:
+			if !c1predecl[x.Name] {
+				found = true
+			}
+		case *ast.SelectorExpr:
+			found = true
+		case *ast.BinaryExpr:
+			if x.Op == token.AND {
+				operand(x.X)
+				operand(x.Y)
+			}
+		}
+	}
 	ast.Walk(f, func(n ast.Node) bool {
 		if fd, ok := n.(*ast.Field); ok {
 			if _, isPat := fd.Label.(*ast.ListLit); isPat {
-				ast.Walk(fd.Value, func(m ast.Node) bool {
-					if id, ok := m.(*ast.Ident); ok && !c1predecl[id.Name] {
-						found = true
-					}
-					return !found
-				}, nil)
+				operand(fd.Value)
 			}
 		}
 		return !found
